@@ -1,0 +1,1 @@
+//! Verification hooks (shrex codec / shwap multihasher group); see `mod.rs`.
